@@ -66,25 +66,25 @@ theorem adoptUnrecordedTasks_eq_of_noUnrec {s : Sys} {jo : JobObj} (h : NoUnrec 
 /-- the task list after `adoptUnrecordedTasks`, seen from the start of the pass: the adopted tasks
 come from the pod cache and are not named like a recorded ref -/
 theorem adoptUnrecordedTasks_refsOK {j0 : JobObj} {sp : Sys} (ctx : PassCtx j0 sp) (N : List String) (jo : JobObj)
-    (T0 : List Task) (htg0 : TasksGood j0 sp.d T0) (hs0 : TasksSem sp.pods N T0)
+    (hu : jo.uid = j0.uid) (T0 : List Task) (htg0 : TasksGood j0 sp.d T0) (hs0 : TasksSem sp.pods N T0)
     (hok0 : RefsOK sp.pods N T0 jo.job.status.tasks) (hNc : ∀ n ∈ podNames sp.podCache, n ∈ N) :
     TasksGood j0 sp.d (adoptUnrecordedTasks sp jo T0) ∧ TasksSem sp.pods N (adoptUnrecordedTasks sp jo T0) ∧
     RefsOK sp.pods N (adoptUnrecordedTasks sp jo T0) jo.job.status.tasks ∧
     ∀ n ∈ (adoptUnrecordedTasks sp jo T0).map (·.name), n ∈ T0.map (·.name) ∨ n ∈ podNames sp.podCache := by
   have hmem := Furiko.JobCtlPlan.mem_adoptUnrecordedTasks sp jo T0
-  refine ⟨adoptUnrecordedTasks_good sp _ _ ctx.pods htg0, ⟨?_, ?_, ?_⟩, ?_, ?_⟩
+  refine ⟨adoptUnrecordedTasks_good sp _ _ ctx.pods hu htg0, ⟨?_, ?_, ?_⟩, ?_, ?_⟩
   · intro t ht
     rcases (hmem t).mp ht with h | ⟨p, hp, hpt, _⟩
     · exact hs0.sem t h
-    · exact (newTask_sem ctx (jo := jo) (names := [t.name]) ⟨by simp, p, hpt, Or.inr hp⟩).1
+    · exact (newTask_sem ctx (jo := jo) (P0 := []) (names := [t.name]) ⟨by simp, p, hpt, Or.inr ⟨hp, by rw [hu]; exact ctx.owned.cache p hp⟩⟩).1
   · intro t ht hf
     rcases (hmem t).mp ht with h | ⟨p, hp, hpt, _⟩
     · exact hs0.fin t h hf
-    · exact (newTask_sem ctx (jo := jo) (names := [t.name]) ⟨by simp, p, hpt, Or.inr hp⟩).2.1 hf
+    · exact (newTask_sem ctx (jo := jo) (P0 := []) (names := [t.name]) ⟨by simp, p, hpt, Or.inr ⟨hp, by rw [hu]; exact ctx.owned.cache p hp⟩⟩).2.1 hf
   · intro t ht hf
     rcases (hmem t).mp ht with h | ⟨p, hp, hpt, _⟩
     · exact hs0.src t h hf
-    · exact hNc _ ((newTask_sem ctx (jo := jo) (names := [t.name]) ⟨by simp, p, hpt, Or.inr hp⟩).2.2 hf)
+    · exact hNc _ ((newTask_sem ctx (jo := jo) (P0 := []) (names := [t.name]) ⟨by simp, p, hpt, Or.inr ⟨hp, by rw [hu]; exact ctx.owned.cache p hp⟩⟩).2.2 hf)
   · refine hok0.mono (fun t ht => (hmem t).mpr (Or.inl ht)) ?_
     intro t ht
     rcases (hmem t).mp ht with h | ⟨p, hp, hpt, _, _, _, hnr⟩
@@ -119,7 +119,7 @@ theorem syncCreateTasks_g3 {j0 : JobObj} (sp : Sys) (jo : JobObj) (ctx : PassCtx
   · intro h
     simp only [Option.some.injEq, Prod.mk.injEq] at h
     obtain ⟨rfl, rfl⟩ := h
-    obtain ⟨ha1, ha2, ha3, _⟩ := adoptUnrecordedTasks_refsOK ctx (refNames jo.job ++ podNames sp.podCache) jo tasks0
+    obtain ⟨ha1, ha2, ha3, _⟩ := adoptUnrecordedTasks_refsOK ctx (refNames jo.job ++ podNames sp.podCache) jo hjo.uid tasks0
       ht0 hs0 hok0 (fun n hn => List.mem_append_right _ hn)
     exact ⟨ha1, ha2, G3.refl hg ha3, fun _ hnu => adoptUnrecordedTasks_eq_of_noUnrec hnu tasks0⟩
   · rename_i hnc
@@ -130,7 +130,7 @@ theorem syncCreateTasks_g3 {j0 : JobObj} (sp : Sys) (jo : JobObj) (ctx : PassCtx
       have hnames := reqs_names hwf hjo hg.refs hreqs
       have hreq : ∀ r ∈ reqs, CreateReq sp.d jo r.index r.retryIndex :=
         fun r hr => ⟨hst, hdel, hcan, reqs, r.earliest, hreqs, hr⟩
-      have h1 := createLoop_good jo sp.d sp.podCache hjo reqs sp jo.job tasks0 none rfl rfl ctx.pods hreq ht0
+      have h1 := createLoop_good jo sp.d sp.podCache (podNames sp.pods) hjo reqs sp jo.job tasks0 none rfl rfl (fun _ h => h) ctx.pods hreq ht0
         hnames.1 (fun r hr hmem => hnames.2 r hr (hsub _ hmem))
       generalize createLoop jo reqs sp jo.job tasks0 none = res at h1 ⊢
       obtain ⟨s1, o⟩ := res
@@ -140,6 +140,7 @@ theorem syncCreateTasks_g3 {j0 : JobObj} (sp : Sys) (jo : JobObj) (ctx : PassCtx
         obtain ⟨rj', tasks', minE⟩ := v
         (try simp only)
         obtain ⟨hrj, ht', hnew, hpre⟩ := h1 rj' tasks' minE rfl
+        have hrj := hrj.eq_of_owned (fun p hp => by rw [hjo.uid]; exact ctx.owned.cache p hp)
         subst hrj
         -- the new tasks stand for requests, whose names are not recorded
         have hnewname : ∀ t ∈ tasks', t ∈ tasks0 ∨ t.name ∉ (jo.job.status.tasks).map (·.name) := by
@@ -297,17 +298,17 @@ theorem syncJobTasks_g3 {j0 : JobObj} (sp : Sys) (jo : JobObj) (ctx : PassCtx j0
     ∀ b, (syncJobTasks sp jo jo.job).2 = some b →
       ∃ T, G3 j0 sp.d sp.pods (refNames jo.job ++ podNames sp.podCache) T jo.job b ∧
         ((getParallelTaskSummary sp.d jo.job (generateTaskRefs sp.clock jo.job.status.tasks
-            (tasksForRefs sp jo.job.status.tasks))).complete = true → NoUnrec sp jo →
+            (tasksForRefs sp jo jo.job.status.tasks))).complete = true → NoUnrec sp jo →
           ∀ n ∈ T.map (·.name), n ∈ refNames jo.job) := by
   intro b
   unfold syncJobTasks
   (try simp only)
-  have htf := tasksForRefs_good ctx.pods jo.job.status.tasks hg.nodup
-  have hsem := tasksForRefs_refsOK ctx (refNames jo.job ++ podNames sp.podCache) jo.job.status.tasks hg.nodup hrs hfin
+  have htf := tasksForRefs_good (jo := jo) ctx.pods hjo.uid jo.job.status.tasks hg.nodup
+  have hsem := tasksForRefs_refsOK (jo := jo) ctx hjo.uid (refNames jo.job ++ podNames sp.podCache) jo.job.status.tasks hg.nodup hrs hfin
     (fun r hr => List.mem_append_left _ (List.mem_map_of_mem hr))
-  have h1 := syncCreateTasks_g3 sp jo ctx hwf hjo hg hst hdel hcan (tasksForRefs sp jo.job.status.tasks) htf.1
+  have h1 := syncCreateTasks_g3 sp jo ctx hwf hjo hg hst hdel hcan (tasksForRefs sp jo jo.job.status.tasks) htf.1
     hsem.1 hsem.2 htf.2
-  generalize syncCreateTasks sp jo jo.job (tasksForRefs sp jo.job.status.tasks) = r1 at h1 ⊢
+  generalize syncCreateTasks sp jo jo.job (tasksForRefs sp jo jo.job.status.tasks) = r1 at h1 ⊢
   obtain ⟨s1, o1⟩ := r1
   cases o1 with
   | none => (try simp only); intro h; cases h
@@ -401,19 +402,19 @@ theorem syncJobStatusFromTaskRefs_res {j0 : JobObj} {d : PIndex} {P : List PodOb
 that are found, and (repair of F-C20-1) the unrecorded tasks of the pod cache, whose names are not
 recorded -/
 theorem finalizerTasks_refsOK {j0 : JobObj} {sp : Sys} (ctx : PassCtx j0 sp) (N : List String) (jo : JobObj)
-    (rj : Job) (hg : Good j0 sp.d rj) (hrs : ∀ r ∈ rj.status.tasks, RS r)
+    (hu : jo.uid = j0.uid) (rj : Job) (hg : Good j0 sp.d rj) (hrs : ∀ r ∈ rj.status.tasks, RS r)
     (hfin : ∀ r ∈ rj.status.tasks, r.finishTimestamp.isSome = true → PodFinIn sp.pods r.name)
     (hN : ∀ r ∈ rj.status.tasks, r.name ∈ N) (hNc : ∀ n ∈ podNames sp.podCache, n ∈ N) :
     TasksGood j0 sp.d (finalizerTasks sp jo rj) ∧ TasksSem sp.pods N (finalizerTasks sp jo rj) ∧
     RefsOK sp.pods N (finalizerTasks sp jo rj) rj.status.tasks ∧
     ∀ n ∈ (finalizerTasks sp jo rj).map (·.name), n ∈ refNames rj ∨ n ∈ podNames sp.podCache := by
-  have htg0 := tasksForRefsConfirmed_good ctx.pods rj.status.tasks hg.nodup
-  have hsem0 := tasksForRefsConfirmed_refsOK ctx N rj.status.tasks hg.nodup hrs hfin hN
-  have hmem : ∀ t, t ∈ finalizerTasks sp jo rj ↔ t ∈ tasksForRefsConfirmed sp rj.status.tasks ∨
+  have htg0 := tasksForRefsConfirmed_good (jo := jo) ctx.pods hu rj.status.tasks hg.nodup
+  have hsem0 := tasksForRefsConfirmed_refsOK (jo := jo) ctx hu N rj.status.tasks hg.nodup hrs hfin hN
+  have hmem : ∀ t, t ∈ finalizerTasks sp jo rj ↔ t ∈ tasksForRefsConfirmed sp jo rj.status.tasks ∨
       ∃ p ∈ sp.podCache, podTask p = some t ∧ p.jobLabel = some jo.uid ∧ p.ownerUid = some jo.uid ∧
-        (∀ t' ∈ tasksForRefsConfirmed sp rj.status.tasks, t'.name ≠ p.pod.name) ∧
+        (∀ t' ∈ tasksForRefsConfirmed sp jo rj.status.tasks, t'.name ≠ p.pod.name) ∧
         (∀ r ∈ rj.status.tasks, r.name ≠ p.pod.name) := Furiko.JobCtlPlan.mem_finalizerTasks sp jo rj
-  have hT0n : ∀ t ∈ tasksForRefsConfirmed sp rj.status.tasks, t.name ∈ refNames rj := by
+  have hT0n : ∀ t ∈ tasksForRefsConfirmed sp jo rj.status.tasks, t.name ∈ refNames rj := by
     intro t ht
     unfold tasksForRefsConfirmed at ht
     obtain ⟨r, hr, hg'⟩ := List.mem_filterMap.mp ht
@@ -421,19 +422,19 @@ theorem finalizerTasks_refsOK {j0 : JobObj} {sp : Sys} (ctx : PassCtx j0 sp) (N 
     exact List.mem_map_of_mem hr
   refine ⟨?_, ⟨?_, ?_, ?_⟩, ?_, ?_⟩
   · unfold finalizerTasks
-    exact adoptUnrecordedTasks_good sp _ _ ctx.pods htg0
+    exact adoptUnrecordedTasks_good sp _ _ ctx.pods hu htg0
   · intro t ht
     rcases (hmem t).mp ht with h | ⟨p, hp, hpt, _⟩
     · exact hsem0.1.sem t h
-    · exact (newTask_sem ctx (jo := jo) (names := [t.name]) ⟨by simp, p, hpt, Or.inr hp⟩).1
+    · exact (newTask_sem ctx (jo := jo) (P0 := []) (names := [t.name]) ⟨by simp, p, hpt, Or.inr ⟨hp, by rw [hu]; exact ctx.owned.cache p hp⟩⟩).1
   · intro t ht hf
     rcases (hmem t).mp ht with h | ⟨p, hp, hpt, _⟩
     · exact hsem0.1.fin t h hf
-    · exact (newTask_sem ctx (jo := jo) (names := [t.name]) ⟨by simp, p, hpt, Or.inr hp⟩).2.1 hf
+    · exact (newTask_sem ctx (jo := jo) (P0 := []) (names := [t.name]) ⟨by simp, p, hpt, Or.inr ⟨hp, by rw [hu]; exact ctx.owned.cache p hp⟩⟩).2.1 hf
   · intro t ht hf
     rcases (hmem t).mp ht with h | ⟨p, hp, hpt, _⟩
     · exact hsem0.1.src t h hf
-    · exact hNc _ ((newTask_sem ctx (jo := jo) (names := [t.name]) ⟨by simp, p, hpt, Or.inr hp⟩).2.2 hf)
+    · exact hNc _ ((newTask_sem ctx (jo := jo) (P0 := []) (names := [t.name]) ⟨by simp, p, hpt, Or.inr ⟨hp, by rw [hu]; exact ctx.owned.cache p hp⟩⟩).2.2 hf)
   · refine hsem0.2.mono (fun t ht => (hmem t).mpr (Or.inl ht)) ?_
     intro t ht
     rcases (hmem t).mp ht with h | ⟨p, hp, hpt, _, _, _, hnr⟩
@@ -451,7 +452,7 @@ theorem finalizerTasks_refsOK {j0 : JobObj} {sp : Sys} (ctx : PassCtx j0 sp) (N 
       exact List.mem_map_of_mem hp
 
 theorem handleFinalizer_res {j0 : JobObj} (sp s : Sys) (jo : JobObj) (rj : Job) (fz : Bool) (N : List String)
-    (ctx : PassCtx j0 sp)
+    (ctx : PassCtx j0 sp) (hu : jo.uid = j0.uid)
     (hfr : rj.deletionTimestamp.isSome = true → Frame sp s) (hg : Good j0 sp.d rj)
     (hrs : ∀ r ∈ rj.status.tasks, RS r)
     (hfin : ∀ r ∈ rj.status.tasks, r.finishTimestamp.isSome = true → PodFinIn sp.pods r.name)
@@ -473,7 +474,7 @@ theorem handleFinalizer_res {j0 : JobObj} (sp s : Sys) (jo : JobObj) (rj : Job) 
     · (try simp only)
       have hT : finalizerTasks s jo rj = finalizerTasks sp jo rj := finalizerTasks_frame hf jo rj
       rw [hT]
-      obtain ⟨htg, hsem1, hsem2, hTn⟩ := finalizerTasks_refsOK ctx N jo rj hg hrs hfin hN hNc
+      obtain ⟨htg, hsem1, hsem2, hTn⟩ := finalizerTasks_refsOK ctx N jo hu rj hg hrs hfin hN hNc
       have names_of : ∀ {b : Job}, G3 j0 sp.d sp.pods N (finalizerTasks sp jo rj) rj b →
           ∀ n ∈ refNames b, n ∈ refNames rj ∨ n ∈ podNames sp.podCache := by
         intro b hb n hn
@@ -534,7 +535,7 @@ theorem sync_res {j0 : JobObj} (sp : Sys) (jo : JobObj) (ctx : PassCtx j0 sp) (h
     (htm : jo.job.template.isSome = true) :
     SyncRes j0 sp.d sp.pods (passNames sp jo) jo.job (sync sp jo).2.1 ∧
     (((getParallelTaskSummary sp.d jo.job (generateTaskRefs sp.clock jo.job.status.tasks
-        (tasksForRefs sp jo.job.status.tasks))).complete = true ∧ NoUnrec sp jo ∨
+        (tasksForRefs sp jo jo.job.status.tasks))).complete = true ∧ NoUnrec sp jo ∨
       (isStarted jo.job && !isDeleted jo.job) = false) →
       (jo.job.deletionTimestamp = none → ∀ n ∈ refNames (sync sp jo).2.1, n ∈ refNames jo.job) ∧
       ∀ n ∈ refNames (sync sp jo).2.1, n ∈ passNames sp jo) ∧
@@ -552,7 +553,7 @@ theorem sync_res {j0 : JobObj} (sp : Sys) (jo : JobObj) (ctx : PassCtx j0 sp) (h
       SyncRes j0 sp.d sp.pods (passNames sp jo) jo.job b ∧ JobLe jo.job b ∧
       ((isStarted jo.job && !isDeleted jo.job) = false → b = jo.job) ∧
       (((getParallelTaskSummary sp.d jo.job (generateTaskRefs sp.clock jo.job.status.tasks
-          (tasksForRefs sp jo.job.status.tasks))).complete = true ∧ NoUnrec sp jo ∨
+          (tasksForRefs sp jo jo.job.status.tasks))).complete = true ∧ NoUnrec sp jo ∨
         (isStarted jo.job && !isDeleted jo.job) = false) → ∀ n ∈ refNames b, n ∈ refNames jo.job) := by
     intro b
     split
@@ -614,7 +615,7 @@ theorem sync_res {j0 : JobObj} (sp : Sys) (jo : JobObj) (ctx : PassCtx j0 sp) (h
     obtain ⟨s2, rj2⟩ := r2
     (try simp only at h2 hle2 hcoh2 heq2 ⊢)
     have hn2 : ((getParallelTaskSummary sp.d jo.job (generateTaskRefs sp.clock jo.job.status.tasks
-          (tasksForRefs sp jo.job.status.tasks))).complete = true ∧ NoUnrec sp jo ∨
+          (tasksForRefs sp jo jo.job.status.tasks))).complete = true ∧ NoUnrec sp jo ∨
         (isStarted jo.job && !isDeleted jo.job) = false) → ∀ n ∈ refNames rj2, n ∈ refNames jo.job := by
       intro hc n hn
       unfold refNames at hn
@@ -630,7 +631,7 @@ theorem sync_res {j0 : JobObj} (sp : Sys) (jo : JobObj) (ctx : PassCtx j0 sp) (h
                 | some inp => statusHasNullTime s3 inp
                 | none => statusHasNullTime s1 rj1)).2.1 ∧
         (((getParallelTaskSummary sp.d jo.job (generateTaskRefs sp.clock jo.job.status.tasks
-            (tasksForRefs sp jo.job.status.tasks))).complete = true ∧ NoUnrec sp jo ∨
+            (tasksForRefs sp jo jo.job.status.tasks))).complete = true ∧ NoUnrec sp jo ∨
           (isStarted jo.job && !isDeleted jo.job) = false) →
           (rj2.deletionTimestamp = none → ∀ n ∈ refNames (match handleFinalizer s3 jo rj2 jo.finalizer with
             | (s4, none) => (s4, rj2, jo.finalizer, false, statusHasNullTime s1 rj1)
@@ -653,7 +654,7 @@ theorem sync_res {j0 : JobObj} (sp : Sys) (jo : JobObj) (ctx : PassCtx j0 sp) (h
                 | none => statusHasNullTime s1 rj1)).2.1.deletionTimestamp.isSome = true) := by
       intro s3 hfr hN
       have hle4 := (handleFinalizer_spec s3 jo sp rj2 jo.finalizer).2
-      have h4 := handleFinalizer_res sp s3 jo rj2 jo.finalizer (passNames sp jo) ctx hfr h2.1.good h2.1.rs
+      have h4 := handleFinalizer_res sp s3 jo rj2 jo.finalizer (passNames sp jo) ctx hjo.uid hfr h2.1.good h2.1.rs
         h2.1.fin hN (fun n hn => List.mem_append_right _ hn)
       generalize handleFinalizer s3 jo rj2 jo.finalizer = r4 at h4 hle4 ⊢
       obtain ⟨s4, o4⟩ := r4
